@@ -86,6 +86,24 @@ def generate(tier, rng):
         for b in (sample if tier == 'thorough' else rng.sample(sample, 12)):
             for op in ['=', '<>', '<', '<=', '>', '>=']:
                 ent.append('%d/%d/%d %s %d/%d/%d' % (a + (op,) + b)); exp.append((a, op, b))
+    # neighbours: a date against the days just around it and one month / one year away (where any ordering key that is
+    # not strictly monotone in the calendar collides), for every month end and month start of two years and the sample
+    near = list(sample[:40])
+    for y in (2023, 2024):
+        for m in range(1, 13):
+            last = (datetime.date(y + (m == 12), m % 12 + 1, 1) - datetime.timedelta(days=1)).day
+            near += [(1, m, y), (last, m, y), (last - 1, m, y), (28, m, y)]
+    for a in near:
+        da = datetime.date(a[2], a[1], a[0])
+        for delta in (1, -1, 2, 29, 30, 31, 32, 365, 366, -30, -31):
+            try:
+                db = da + datetime.timedelta(days=delta)
+            except OverflowError:
+                continue
+            if not (1 <= db.year <= 9999): continue
+            b = (db.day, db.month, db.year)
+            for op in (['=', '<>', '<', '<=', '>', '>='] if tier == 'thorough' else rng.sample(['=', '<>', '<', '<=', '>', '>='], 2)):
+                ent.append('%d/%d/%d %s %d/%d/%d' % (a + (op,) + b)); exp.append((a, op, b))
     for i in range(0, len(ent), 4000):
         cases.append(Case(mode='repl', stdin=gen.join(ent[i:i + 4000]), limits=BIG, meta=dict(gen='date-compare', cmp=exp[i:i + 4000], sample=i == 0)))
     # printing
